@@ -189,6 +189,7 @@ theorem carveE_of_sem_lhs {c : Ctx} {asg : List String} {lhs : CExpr} (hl : lhsO
   | reg n k t =>
     unfold CarveESem at h; rw [CarveNSem] at h
     unfold CarveE; rw [CarveN]; exact h
+  | imm l s => unfold CarveE; rw [CarveN]; rfl
   | _ => simp [lhsOK] at hl
 
 /-! ## statements, on a typed state -/
